@@ -39,7 +39,7 @@ import (
 //   cancel := 0 none | 1 before send | 2 after response | 3 in the backoff wait
 //   impl := (reqs err stats gaps) ; req := (ctype cenc version retry? body_ok) ; err := (code arg)
 // conc    case := (1 n recv results corrupt) ; recv := (id attempt seen) sorted ; result := (id errcode samples hist exem)
-// handler case := (2 accepted method ctype cenc decoded? sb ast? impl)
+// handler case := (2 accepted method ctype cenc decoded? body_read_fails sb ast? impl)
 //   sb := (nil status samples hist exem err) ; ast := (lead media (list (ows1 ows2 name value)) trail)
 //   impl := (0 call?) panic | (1 status written? call?) ; call := (type payload)
 // ctype   case := (3 header ast? res)   res := 0 error | 1 v1 | 2 v2
@@ -1077,9 +1077,26 @@ type hcase struct {
 	method      string
 	ctype, cenc *string
 	body        []byte
+	bodyFault   int // 0 none; reading the request body fails: 1 at once, 2 after the bytes of body, 3 io.ErrUnexpectedEOF after the bytes
 	beh         storeBeh
 	ast         *ctAst
 }
+
+// failingBody yields the given bytes and then an error instead of io.EOF.
+type failingBody struct {
+	data []byte
+	err  error
+}
+
+func (f *failingBody) Read(p []byte) (int, error) {
+	if len(f.data) == 0 {
+		return 0, f.err
+	}
+	n := copy(p, f.data)
+	f.data = f.data[n:]
+	return n, nil
+}
+func (f *failingBody) Close() error { return nil }
 
 func runHandlerCase(hc *hcase) string {
 	var acc remote.MessageTypes
@@ -1095,6 +1112,14 @@ func runHandlerCase(hc *hcase) string {
 	st := &recStore{beh: hc.beh}
 	h := remote.NewHandler(st, acc)
 	req := httptest.NewRequest(hc.method, "/api/v1/write", bytes.NewReader(hc.body))
+	switch hc.bodyFault {
+	case 1:
+		req.Body = &failingBody{nil, errors.New("connection reset by peer")}
+	case 2:
+		req.Body = &failingBody{append([]byte{}, hc.body...), errors.New("read tcp: i/o timeout")}
+	case 3:
+		req.Body = &failingBody{append([]byte{}, hc.body...), io.ErrUnexpectedEOF}
+	}
 	ct, ce := "", ""
 	if hc.ctype != nil {
 		req.Header.Set("Content-Type", *hc.ctype)
@@ -1141,7 +1166,7 @@ func runHandlerCase(hc *hcase) string {
 	}
 	b := hc.beh
 	sb := emit.Tup(emit.B(b.nilResp), emit.I(b.status), emit.I(b.s), emit.I(b.h), emit.I(b.e), emit.B(b.err))
-	return emit.C(2, emit.L(accT), emit.S(hc.method), emit.S(ct), emit.S(ce), decoded, sb, ast, impl)
+	return emit.C(2, emit.L(accT), emit.S(hc.method), emit.S(ct), emit.S(ce), decoded, emit.B(hc.bodyFault != 0), sb, ast, impl)
 }
 
 func genStoreBeh(r *emit.Rng) storeBeh {
@@ -1207,9 +1232,25 @@ func runHandlerStreams(c *cli.Ctx, rng *emit.Rng) error {
 			}
 		}
 	}
+	// the request body cannot be read: every accepted-type set x message type x kind of failure (400, store not called)
+	for _, acc := range accs {
+		for _, ct := range []*string{nil, sp("application/x-protobuf"), sp("application/x-protobuf;proto=" + v1Name), sp("application/x-protobuf;proto=" + v2Name)} {
+			for f := 1; f <= 3; f++ {
+				for _, ce := range []*string{nil, sp("snappy")} {
+					hc := &hcase{accepted: acc, method: "POST", ctype: ct, cenc: ce, beh: genStoreBeh(rng), bodyFault: f,
+						body: snappy.Encode(nil, padBytes(rng, 1+rng.Intn(40), false))}
+					add(hc, []string{"grid", fmt.Sprintf("body:read-fails-%d", f)})
+				}
+			}
+		}
+	}
 	for i := 0; i < 600*c.Scale; i++ {
 		var tags []string
 		hc := &hcase{accepted: accs[rng.Intn(len(accs))], method: methods[rng.Intn(len(methods))], cenc: cencs[rng.Intn(len(cencs))], beh: genStoreBeh(rng)}
+		if rng.Chance(1, 12) {
+			hc.bodyFault = 1 + rng.Intn(3)
+			tags = append(tags, fmt.Sprintf("body:read-fails-%d", hc.bodyFault))
+		}
 		if rng.Chance(1, 10) {
 			tags = append(tags, "ctype:absent")
 		} else {
